@@ -92,6 +92,7 @@ def check(model, rep):
     flat, left = unrolled(sw)
     rep.ob('R11.2', sw, 'six-leg loop has a constant trip count', not left, 'a loop of sumActuatorWrenches could not be unrolled (not over range(6))', shape=True)
     n_paths = 0
+    _six_failed = []
     for pth in paths_of(flat, sw.params, consts={'%sisNone' % fp: False}):
         if pth.ret in (None, '<none>'):
             continue
@@ -135,8 +136,24 @@ def check(model, rep):
             legs[k] = legs.get(k, 0) + 1
         rep.ob('R11.2', sw, 'returned wrench is a sum of makeWrench terms', ts is not None and not strange, 'terms not recognised: %s' % strange[:2], shape=True, line=pth.ret_line)
         rep.ob('R11.2', sw, 'point, direction and magnitude of each term belong to the same leg', not bad, '; '.join(bad[:3]), line=pth.ret_line)
-        rep.ob('R11.2', sw, 'six legs, one wrench each', legs == {k_: 1 for k_ in range(6)},
-               'legs contributing (leg: count) = %s' % dict(sorted(legs.items())), line=pth.ret_line)
+        # a leg left out exactly when its force is zero contributes the zero wrench: nothing is missing
+        import re as _re2
+        for k_ in range(6):
+            if k_ in legs:
+                continue
+            for fk_, fv_ in pth.facts.items():
+                t_ = _re2.sub(r'\.(flatten|ravel|copy|squeeze)\(\)|\.reshape\(\(?6,?\)?\)', '', fk_.replace(' ', ''))
+                t_ = _re2.sub(r'^float\((.*)\)(==|!=)', r'\1\2', t_)
+                if (t_ in ('%s[%d]==0' % (fp, k_), '%s[%d]==0.0' % (fp, k_)) and fv_) or (t_ in ('%s[%d]!=0' % (fp, k_), '%s[%d]!=0.0' % (fp, k_), '%s[%d]' % (fp, k_)) and not fv_):
+                    legs[k_] = 1
+        six = legs == {k_: 1 for k_ in range(6)}
+        if six or not _six_failed:
+            conds = ['%s is %s' % (pth.fact_src.get(k_, k_), v_) for k_, v_ in sorted(pth.facts.items()) if fp in k_][:3]
+            rep.ob('R11.2', sw, 'six legs, one wrench each', six,
+                   'legs contributing (leg: count) = %s%s: the sum leaves out the wrench of a leg, so it no longer balances the applied wrench'
+                   % (dict(sorted(legs.items())), (' on the path where ' + ' and '.join(conds)) if conds else ''), line=pth.ret_line)
+        if not six:
+            _six_failed.append(pth)
     rep.floor('R11.2', 'returning paths of sumActuatorWrenches', n_paths, 1)
 
     # ---------------------------------------------------------------- R11.3
